@@ -137,3 +137,11 @@ Proof.
   - repeat constructor. intros [].
   - intros rp [].
 Qed.
+
+(* the post-fit standardisation stores the wrapped phase (since /repo 7a94ee8): same complex value, phase in [-pi, pi) *)
+Theorem C08_std_phase_same_value : forall x, cos (wrap_phase x) = cos x /\ sin (wrap_phase x) = sin x.
+Proof. exact wrap_phase_same_value. Qed.
+Print Assumptions C08_std_phase_same_value.
+Theorem C08_std_phase_range : forall x, - 7 * PI <= x < 7 * PI -> - PI <= wrap_phase x < PI.
+Proof. exact wrap_phase_range. Qed.
+Print Assumptions C08_std_phase_range.
